@@ -108,6 +108,26 @@ impl<'r> Gen<'r> {
         }
     }
     pub fn string(&mut self) -> String {
+        if self.cfg.exotic_strings > 0 && self.rng.chance(1, 12) {
+            // a control character (U+0001 .. U+001F, U+007F: the bytes word-at-a-time NUL searches get wrong) somewhere
+            // in a short string, at every byte offset modulo 4
+            let n = self.rng.below(10) as usize;
+            let at = self.rng.usize_below(n + 1);
+            let mut st = String::new();
+            for k in 0..=n {
+                if k == at {
+                    st.push(*self.rng.pick(&['\u{1}', '\u{1}', '\u{2}', '\u{7f}', '\u{80}', '\u{1f}', '\u{ff}', '\u{100}']));
+                } else {
+                    st.push((b'a' + self.rng.below(26) as u8) as char);
+                }
+            }
+            return st;
+        }
+        if self.cfg.exotic_strings > 0 && self.rng.chance(1, 80) {
+            // lengths at and around powers of two (stack buffers, small-string paths)
+            let n = *self.rng.pick(&[63usize, 64, 65, 127, 128, 129, 255, 256, 257, 511, 512, 513, 1023, 1024, 1025, 2047, 2048, 4095, 4096, 4097]);
+            return (0..n).map(|k| (b'a' + (k % 26) as u8) as char).collect();
+        }
         if self.rng.below(16) < self.cfg.exotic_strings {
             match self.rng.below(3) {
                 0 => {
@@ -307,6 +327,23 @@ impl<'r> Gen<'r> {
                 }
                 items.push(ops[before..].to_vec());
             }
+            if matches!(s.cat(*k), Cat::PairLitId | Cat::PairIdLit | Cat::PairIdId) && items.len() >= 2 && self.rng.chance(1, 3) {
+                // a repeated table entry (same literal and target), or the same key with another target
+                let n_items = items.len();
+                let src = items[self.rng.usize_below(n_items - 1)].clone();
+                let flat: usize = items.iter().map(|it| it.len()).sum();
+                let start = ops.len() - flat;
+                let last = n_items - 1;
+                if self.rng.chance(2, 3) {
+                    items[last] = src;
+                } else {
+                    items[last][0] = src[0].clone();
+                }
+                ops.truncate(start);
+                for it in &items {
+                    ops.extend(it.iter().cloned());
+                }
+            }
             if !matches!(s.cat(*k), Cat::IdResultType | Cat::IdResult) {
                 groups.push(Group { kind: *k, quant: *q, items });
             }
@@ -438,7 +475,14 @@ pub fn gen_stream(rng: &mut Rng, cfg: ProdCfg) -> Stream {
             if sec == layout::SEC_TYPES && (n < 2 || g.rng.chance(1, 4)) {
                 // int/float declarations first so that later literals have something to depend on
                 let float = g.rng.chance(1, 3);
-                let width = if float { *g.rng.pick(&[16u32, 32, 32, 64]) } else { *g.rng.pick(&[8u32, 16, 32, 32, 64, 64]) };
+                let width = if g.rng.chance(1, 14) {
+                    // a width the literal rule does not support (a later literal of it is an error the parser must report)
+                    *g.rng.pick(&[7u32, 24, 48, 128, 1, 0])
+                } else if float {
+                    *g.rng.pick(&[16u32, 32, 32, 64])
+                } else {
+                    *g.rng.pick(&[8u32, 16, 32, 32, 64, 64])
+                };
                 let i = g.type_decl(float, width);
                 insts.push(i);
                 continue;
@@ -494,6 +538,7 @@ pub fn gen_stream(rng: &mut Rng, cfg: ProdCfg) -> Stream {
         insts,
     };
     link_merges(rng, &mut stream);
+    link_references(rng, &mut stream);
     if rng.chance(1, 10) {
         plant_linkage(rng, &mut stream);
     }
@@ -741,6 +786,62 @@ pub fn link_merges(rng: &mut Rng, stream: &mut Stream) {
     }
 }
 
+/// References as real modules have them: an entry point names a function of the module and lists variables of the
+/// module (global or function-local) in its interface; execution modes name an entry point's function.
+pub fn link_references(rng: &mut Rng, stream: &mut Stream) {
+    let s = snap();
+    let funcs: Vec<u32> = stream.insts.iter().filter(|i| i.is("Function")).filter_map(|i| i.rid).collect();
+    let vars: Vec<u32> = stream.insts.iter().filter(|i| i.is("Variable")).filter_map(|i| i.rid).collect();
+    let ptrs: Vec<(u32, u32)> = stream
+        .insts
+        .iter()
+        .filter(|i| i.is("TypePointer"))
+        .filter_map(|i| match (i.rid, i.ops.first()) {
+            (Some(r), Some(MOp::W(_, sc))) => Some((r, *sc)),
+            _ => None,
+        })
+        .collect();
+    for i in stream.insts.iter_mut() {
+        if i.is("EntryPoint") {
+            if !funcs.is_empty() && rng.chance(1, 2) {
+                if let Some(MOp::W(k, v)) = i.ops.get_mut(1) {
+                    if *k == s.k_idref {
+                        *v = *rng.pick(&funcs);
+                    }
+                }
+            }
+            if !vars.is_empty() {
+                // interface ids come behind the name string
+                let first_iface = i.ops.iter().position(|o| matches!(o, MOp::S(_))).map(|p| p + 1).unwrap_or(i.ops.len());
+                for o in i.ops[first_iface..].iter_mut() {
+                    if let MOp::W(k, v) = o {
+                        if *k == s.k_idref && rng.chance(1, 2) {
+                            *v = *rng.pick(&vars);
+                        }
+                    }
+                }
+            }
+        } else if i.is("TypeForwardPointer") && !ptrs.is_empty() && rng.chance(2, 3) {
+            // a forward declaration of a pointer type the module really declares (same id, same storage class)
+            let (pid, sc) = *rng.pick(&ptrs);
+            if i.ops.len() >= 2 {
+                if let MOp::W(_, v) = &mut i.ops[0] {
+                    *v = pid;
+                }
+                if let MOp::W(_, v) = &mut i.ops[1] {
+                    *v = sc;
+                }
+            }
+        } else if (i.is("ExecutionMode") || i.is("ExecutionModeId")) && !funcs.is_empty() && rng.chance(1, 2) {
+            if let Some(MOp::W(k, v)) = i.ops.get_mut(0) {
+                if *k == s.k_idref {
+                    *v = *rng.pick(&funcs);
+                }
+            }
+        }
+    }
+}
+
 /// Hot spot where SPIR-V semantics tie annotations to structure: the Linkage capability and a
 /// LinkageAttributes decoration (Import: "a declaration without a body") on a function id.
 pub fn plant_linkage(rng: &mut Rng, stream: &mut Stream) {
@@ -816,7 +917,16 @@ pub fn plant_ext_inst(rng: &mut Rng, stream: &mut Stream) {
         rid: Some(set_id),
         ops: vec![MOp::S(name)],
     };
-    let mut ops = vec![MOp::W(s.k_idref, if rng.chance(7, 8) { set_id } else { set_id + 7 }), MOp::W(s.k_extinst, number)];
+    // optionally a second recognised import a few ids further on; the instruction names either of them, an id between
+    // them (no import at all) or one beyond
+    let second = rng.chance(1, 3);
+    let named_set = match rng.below(8) {
+        0 => set_id + 7,
+        1 | 2 if second => set_id + 6,
+        3 if second => set_id + 3,
+        _ => set_id,
+    };
+    let mut ops = vec![MOp::W(s.k_idref, named_set), MOp::W(s.k_extinst, number)];
     for _ in 0..rng.below(4) {
         ops.push(MOp::W(s.k_idref, rng.below(20) as u32));
     }
@@ -833,6 +943,10 @@ pub fn plant_ext_inst(rng: &mut Rng, stream: &mut Stream) {
         stream.insts.insert(0, MInst { opcode: s.op("ExtInstImport"), rtype: None, rid: Some(set_id), ops: vec![MOp::S(other.to_string())] });
     }
     stream.insts.insert(0, import);
+    if second {
+        let other = *rng.pick(&["GLSL.std.450", "OpenCL.std", "OpenCL.std"]);
+        stream.insts.insert(1, MInst { opcode: s.op("ExtInstImport"), rtype: None, rid: Some(set_id + 6), ops: vec![MOp::S(other.to_string())] });
+    }
     match stream.insts.iter().position(|i| i.is("Label")) {
         Some(k) => stream.insts.insert(k + 1, ext),
         None => {
